@@ -101,11 +101,12 @@ func (i *Indexer) initBlocks() error {
 	}
 	iter.Release()
 
-	if i.lastHeight > i.blockWindow {
-		lastRetainedHeight := i.lastHeight - i.blockWindow
-		lastRetainedHeightKey := blockEntryKey(lastRetainedHeight)
+	if i.lastHeight >= i.blockWindow {
+		// the window retains the heights (lastHeight-blockWindow, lastHeight];
+		// the end of the deleted range is exclusive.
+		firstRetainedHeightKey := blockEntryKey(i.lastHeight - i.blockWindow + 1)
 		firstBlkKey := blockEntryKey(0)
-		if err := i.blockDB.DeleteRange(firstBlkKey, lastRetainedHeightKey); err != nil {
+		if err := i.blockDB.DeleteRange(firstBlkKey, firstRetainedHeightKey); err != nil {
 			return err
 		}
 	}
@@ -124,14 +125,20 @@ func (i *Indexer) Notify(_ context.Context, blk *chain.ExecutedBlock) error {
 // cache.
 // assumes the write lock is held
 func (i *Indexer) insertBlockIntoCache(blk *chain.ExecutedBlock) {
-	if evictedBlk, ok := i.blockHeightToBlock[blk.Block.Hght-i.blockWindow]; ok {
-		// remove the block from the caches
-		delete(i.blockIDToHeight, evictedBlk.Block.GetID())
-		delete(i.blockHeightToBlock, evictedBlk.Block.GetHeight())
-
-		// remove the transactions from the cache.
-		for _, tx := range evictedBlk.Block.Txs {
-			delete(i.txCache, tx.GetID())
+	if height := blk.Block.Hght; height >= i.blockWindow {
+		// lastEvictedHeight is the greatest height that falls out of the window
+		// ending at the given block.
+		lastEvictedHeight := height - i.blockWindow
+		if i.lastHeight != math.MaxUint64 && height > i.lastHeight+1 {
+			// Blocks were skipped (ie. state sync), so more than a single
+			// block may have fallen out of the window.
+			for cachedHeight := range i.blockHeightToBlock {
+				if cachedHeight <= lastEvictedHeight {
+					i.evictBlockFromCache(cachedHeight)
+				}
+			}
+		} else {
+			i.evictBlockFromCache(lastEvictedHeight)
 		}
 	}
 
@@ -145,6 +152,24 @@ func (i *Indexer) insertBlockIntoCache(blk *chain.ExecutedBlock) {
 		}
 	}
 	i.lastHeight = blk.Block.Hght
+}
+
+// evictBlockFromCache removes the block at the given height, if any, and its
+// transactions from the cache.
+// assumes the write lock is held
+func (i *Indexer) evictBlockFromCache(height uint64) {
+	evictedBlk, ok := i.blockHeightToBlock[height]
+	if !ok {
+		return
+	}
+	// remove the block from the caches
+	delete(i.blockIDToHeight, evictedBlk.Block.GetID())
+	delete(i.blockHeightToBlock, height)
+
+	// remove the transactions from the cache.
+	for _, tx := range evictedBlk.Block.Txs {
+		delete(i.txCache, tx.GetID())
+	}
 }
 
 // storeBlock persist the given block to the database, and deletes a block
